@@ -27,7 +27,7 @@ for meta_p in sorted(glob.glob(os.path.join(VERIF, 'seeded', '*', 'meta.json')))
             r = subprocess.run([os.path.join(VERIF, 'check'), pid], env=env, capture_output=True, text=True)
             rules = sorted({l.split()[0][5:] for l in r.stdout.splitlines() if l.startswith('  rule=')})
             return pid, r.returncode, rules, 'kind=tooling' in r.stdout
-        with ThreadPoolExecutor(10) as ex:
+        with ThreadPoolExecutor(int(os.environ.get('JOBS', '10'))) as ex:
             rr = list(ex.map(one, IDS))
         row = {pid: rules for pid, rc, rules, tool in rr if rc == 1 and rules and not tool}
         tooling = [pid for pid, rc, rules, tool in rr if tool]
